@@ -122,6 +122,12 @@ def vals(name, side, n, rng=None):
 def make(kind, side, n, rng=None):
     if kind == 'KFloat': return 2.5 + side if rng is None else float(rng.uniform(1.5, 4.5))
     if kind == 'KInt': return 2 + side if rng is None else int(rng.integers(2, 5))
+    if kind.startswith('KSeq'):        # 'KSeq false 3' = list of 3 numbers, 'KSeq true 2' = tuple of 2 numbers
+        _, tup, m = kind.split()
+        v = [1.0 + i + side for i in range(int(m))] if rng is None else [float(x) for x in rng.uniform(0.5, 3.5, size=int(m))]
+        if rng is not None and rng.integers(0, 2) == 0:
+            v = [int(round(x)) + 1 for x in v]          # lists of ints are array-like vectors too
+        return tuple(v) if tup == 'true' else v
     if kind.startswith('KArr'):
         shp = tuple(int(x) for x in re.findall(r'\d+', kind))
         a = np.arange(float(np.prod(shp))).reshape(shp) + 1 + side
@@ -211,7 +217,11 @@ def observe(n, op, lk, rk, rng=None):
 
 
 def expr(n, op, lk, rk):
-    nm = lambda k: k[4:] if k.startswith('Obj ') else {'KFloat': 'float', 'KInt': 'int'}.get(k) or 'ndarray(' + ','.join(re.findall(r'\d+', k)) + (',)' if k.count(';') == 0 else ')')
+    def nm(k):
+        if k.startswith('Obj '): return k[4:]
+        if k in ('KFloat', 'KInt'): return {'KFloat': 'float', 'KInt': 'int'}[k]
+        if k.startswith('KSeq'): return ('tuple' if 'true' in k else 'list') + '(%s numbers)' % k.split()[-1]
+        return 'ndarray(' + ','.join(re.findall(r'\d+', k)) + (',)' if k.count(';') == 0 else ')')
     return f"{nm(lk)} {SYM[op]} {nm(rk)} [{'single' if n == 1 else 'multi-valued(%d)' % n}]"
 
 
@@ -282,7 +292,7 @@ def conforms(spec, out):
     return True    # Free
 
 
-CAUSE_WHAT = {}     # root causes of violating cells of the model: all repaired (docs/C08.md), the table theorem is unguarded
+CAUSE_WHAT = {}     # root causes of violating cells of the model: all repaired (docs/C08.md), every table theorem is unguarded
 
 
 def short(out):
@@ -358,7 +368,7 @@ def run(ctx):
                          "the transcription of the documented table (Model/C08_Ops.v: documented) from the property text and the docstrings"]
     if not prepare(ctx):
         return
-    for f in ('C08.v', 'C08_clauses.v', 'C08_mechanism.v'):
+    for f in ('C08.v', 'C08_clauses.v', 'C08_mechanism.v', 'C08_sequences.v'):
         ctx.prove('theories/Props/' + f)
     with ctx.timed('model-table'):
         tab = model_table(ctx)
@@ -381,6 +391,16 @@ def run(ctx):
         for _ in range(ctx.n(1, 4)):
             for key in ext:
                 check_cell(ctx, key, ext, ctx.rng, 'extended')
+    # array-LIKE vector operands: a list / tuple of 2, 3, 4 numbers on either side of every class, every operator, both lengths
+    with ctx.timed('model-table-sequences'):
+        seq = model_table(ctx, 'report_for H seq_cells')
+    ctx.stats['cells-sequences'] = len(seq)
+    with ctx.timed('observe+compare-sequences'):
+        for key in seq:
+            check_cell(ctx, key, seq, None, 'sequences')
+        for _ in range(ctx.n(1, 4)):
+            for key in seq:
+                check_cell(ctx, key, seq, ctx.rng, 'sequences-random-values')
     ctx.corr['functions'] = 1
     nz = [k for k in keys if tab[k][0] != 'Raise']
     for k in nz[:: max(1, len(nz) // 10)]:
